@@ -30,7 +30,10 @@ THEOREMS = [
     "SqlglotModel.Properties.C17.lineageOne_eq_flow",
     "SqlglotModel.Properties.C17.cte_vs_derived",
     "SqlglotModel.Properties.C17.sources_arg_eq_inline",
+    "SqlglotModel.Properties.C17.alias_renaming_invariant_per_scope",
     "SqlglotModel.Properties.C17.alias_renaming_invariant",
+    "SqlglotModel.Properties.C17.expand_then_lineage_eq_inline",
+    "SqlglotModel.Properties.C17.expand_example",
     "SqlglotModel.Properties.C17.twoCol_ok",
     "SqlglotModel.Properties.C17.stale_key_without_column_witness",
     "SqlglotModel.Properties.C17.twoSubq_ok",
@@ -45,6 +48,9 @@ KEY_NAMES = {
     "source_name": "sourceName",
     "reference_node_name": "refName",
 }
+
+
+WRAP_FORM = ["subquery_scopes"]  # set by translate(): how the Subquery-wrapper branch picks its inner scope
 
 
 # ------------------------------------------------------------------------------------------ translate
@@ -82,6 +88,22 @@ def translate(chk: Check) -> str:
         if comps is not None and not all(isinstance(u.slice, ast.Name) and u.slice.id == "cache_key" for u in uses):
             detail = "_cache indexed by something other than cache_key"
             comps = None
+        # which scopes the Subquery-wrapper branch recurses into (lineage.py:247)
+        WRAP_FORM[0] = None
+        for node in ast.walk(fn):
+            if isinstance(node, ast.If) and ast.unparse(node.test) == "isinstance(scope.expression, exp.Subquery)":
+                loops = [x for x in node.body if isinstance(x, ast.For)]
+                if len(loops) == 1:
+                    it = ast.unparse(loops[0].iter)
+                    first = ast.unparse(loops[0].body[0]) if loops[0].body else ""
+                    filt = first.replace("\n", " ").split() == "if inner_scope.expression is not inner_query: continue".split()
+                    if it == "scope.subquery_scopes" and not filt:
+                        WRAP_FORM[0] = "subquery_scopes"
+                    elif it == "(*scope.derived_table_scopes, *scope.subquery_scopes)" and filt:
+                        WRAP_FORM[0] = "inner_query"
+        if WRAP_FORM[0] is None:
+            chk.broken.append({"kind": "translator", "what": "C17 translator: structure changed: Subquery-wrapper branch of to_node not recognised"})
+            WRAP_FORM[0] = "subquery_scopes"
     if comps is None:
         chk.broken.append({"kind": "translator", "what": "C17 translator: structure changed: " + detail})
         comps = []
@@ -89,6 +111,7 @@ def translate(chk: Check) -> str:
         chk.broken.append({"kind": "translator", "what": f"C17 translator: structure changed: recursive to_node calls={ncalls}, all pass _cache={all_pass}"})
     chk.cov["cache_key_components"] = comps
     chk.cov["recursive_calls"] = ncalls
+    chk.cov["subquery_branch_iterates"] = WRAP_FORM[0]
     return (
         "-- GENERATED by vf/props/c17.py from sqlglot/lineage.py (to_node: cache_key tuple, recursive calls). Do not edit.\n"
         "import SqlglotModel.Model.Lineage\n"
@@ -97,6 +120,8 @@ def translate(chk: Check) -> str:
         "def keyComps : List KeyComp := [" + ", ".join("." + c for c in comps) + "]\n"
         f"def recursiveCalls : Nat := {ncalls}\n"
         f"def recursiveCallsPassCache : Bool := {'true' if all_pass and ncalls else 'false'}\n"
+        f"/-- informational: what the Subquery-wrapper branch iterates to find the inner scope -/\n"
+        f"def subqueryBranchIterates : String := \"{WRAP_FORM[0]}\"\n"
         "end SqlglotModel.Generated.C17\n"
     )
 
@@ -461,6 +486,8 @@ def dialect_traits(dialect):
 def present(q, pres, path="", ren=lambda a: a, dialect=None, style=0):
     ctx = Ctx(pres, path, ren, dialect, style)
     body = render(q, ctx)
+    if style & 8:
+        body = "(" + body + ")"  # parenthesised root query
     if ctx.ctes:
         body = "WITH " + ", ".join(ctx.ctes) + " " + body
     return body, (ctx.sources or None)
@@ -524,21 +551,83 @@ def norm_truth(s):
 
 
 # ------------------------------------------------------------------------------------------ model side
-def to_model(sql, sources, schema, dialect):
-    """qualify exactly as lineage() does, build_scope, flatten -> (request dict, root scope, idx map) or None if the
-    query uses something the model does not represent"""
+def qualified(sql, sources, schema, dialect, do_expand=True):
+    """parse / expand / qualify exactly as lineage() does"""
     sqlglot, exp, L, build_scope, qualify, Scope, ScopeType, find_all_in_scope = sg()
     from sqlglot import maybe_parse
     from sqlglot.schema import ensure_schema
 
     expression = maybe_parse(sql, dialect=dialect)
-    if sources:
+    if sources and do_expand:
         expression = exp.expand(expression, {k: maybe_parse(v, dialect=dialect) for k, v in sources.items()}, dialect=dialect)
     sch = ensure_schema(schema, dialect=dialect)
-    expression = qualify.qualify(expression, dialect=dialect, schema=sch, validate_qualify_columns=False, identify=False)
+    return qualify.qualify(expression, dialect=dialect, schema=sch, validate_qualify_columns=False, identify=False)
+
+
+def to_model(sql, sources, schema, dialect):
+    """qualify exactly as lineage() does, build_scope, flatten -> (request dict, root scope, idx map) or None if the
+    query uses something the model does not represent"""
+    expression = qualified(sql, sources, schema, dialect)
+    m = scopes_of(expression)
+    if m is None:
+        return None
+    req, root, idx = m
+    return req, root, idx, expression
+
+
+def add_table(schema, path, name, cols):
+    """a copy of the nested schema dict with one more table next to the base tables"""
+    import copy
+
+    sch = copy.deepcopy(schema)
+    d = sch
+    for part in [p for p in path.split(".") if p]:
+        d = d[part]
+    d[name] = {c: "int" for c in cols}
+    return sch
+
+
+def to_model_unexpanded(sql, sources, schema, path, dialect):
+    """the `sources=` presentation WITHOUT running exp.expand: every source query and the main query are qualified on
+    their own (the other sources visible as plain tables with their output columns) and flattened separately;
+    the Lean model does the expansion.  -> request dict with "defs", or None"""
+    from sqlglot.expressions import normalize_table_name
+
+    sch = schema
+    defs, keys = [], {}
+    for name, body in sources.items():  # dependency order: inner sources were registered first
+        key = normalize_table_name(name, dialect=dialect)
+        e = qualified(body, None, sch, dialect)
+        m = scopes_of(e, keys, dialect)
+        if m is None:
+            return None
+        defs.append({"name": key, "scopes": m[0]["scopes"]})
+        if m[0]["root"] != len(m[0]["scopes"]) - 1:
+            return None
+        keys[key] = 1
+        sch = add_table(sch, path, name, e.named_selects)
+    e = qualified(sql, None, sch, dialect)
+    m = scopes_of(e, keys, dialect)
+    if m is None or m[0]["root"] != len(m[0]["scopes"]) - 1:
+        return None
+    return {"defs": defs, "scopes": m[0]["scopes"], "cols": m[0]["cols"]}
+
+
+def scopes_of(expression, src_keys=None, dialect=None):
+    """build_scope + flatten (children first) -> (request dict, root scope, idx map) or None"""
+    sqlglot, exp, L, build_scope, qualify, Scope, ScopeType, find_all_in_scope = sg()
+    from sqlglot.expressions import normalize_table_name
+
     root = build_scope(expression)
     order = list(root.traverse())
     idx = {id(s): i for i, s in enumerate(order)}
+
+    def table_name(tbl):
+        if src_keys:
+            k = normalize_table_name(tbl, dialect=dialect)
+            if k in src_keys:
+                return k
+        return table_id(tbl)
 
     def proj(scope, sel, name):
         cols, seen = [], set()
@@ -564,7 +653,11 @@ def to_model(sql, sources, schema, dialect):
                 return None
             out.append({"k": "union", "op": type(e).__name__.upper(), "l": idx[id(s.union_scopes[0])],
                         "r": idx[id(s.union_scopes[1])], "names": [x.alias_or_name for x in e.selects]})
-        elif isinstance(e, exp.Select):
+        elif isinstance(e, exp.Subquery) and wrap_inner(s) is not None:
+            out.append({"k": "wrap", "inner": idx[id(wrap_inner(s))]})
+        elif isinstance(e, (exp.Select, exp.Subquery)):
+            # a Subquery-rooted scope whose inner scope the wrapper branch does not find falls through to the
+            # generic path of to_node with `selectable.selects` = the inner query's projections
             if e.is_star or s.pivots or s.udtf_scopes:
                 return None
             source_names = {dt.alias: dt.comments[0].split()[1] for dt in s.derived_tables
@@ -581,15 +674,24 @@ def to_model(sql, sources, schema, dialect):
                     srcs.append([alias, {"t": "scope", "idx": idx[id(src)], "cte": src.scope_type == ScopeType.CTE,
                                          "ref": ref, "tag": source_names.get(alias)}])
                 else:
-                    srcs.append([alias, {"t": "table", "name": table_id(src)}])
+                    srcs.append([alias, {"t": "table", "name": table_name(src)}])
             out.append({"k": "select", "projs": [proj(s, x, x.alias_or_name) for x in e.selects],
                         "fb": proj(s, e, ""), "srcs": srcs})
-        elif isinstance(e, exp.Subquery) and len(s.subquery_scopes) >= 1:
-            out.append({"k": "wrap", "inner": idx[id(s.subquery_scopes[0])]})
         else:
             return None
     cols = [x.alias_or_name for x in root.expression.selects]
-    return {"scopes": out, "root": idx[id(root)], "cols": cols}, root, idx, expression
+    return {"scopes": out, "root": idx[id(root)], "cols": cols}, root, idx
+
+
+def wrap_inner(s):
+    """the scope the Subquery-wrapper branch of to_node recurses into (None: it falls through), per the source form"""
+    if WRAP_FORM[0] == "inner_query":
+        inner_query = s.expression.unnest()
+        for c in (*s.derived_table_scopes, *s.subquery_scopes):
+            if c.expression is inner_query:
+                return c
+        return None
+    return s.subquery_scopes[0] if s.subquery_scopes else None
 
 
 def real_cache(root, idx, expression, dialect):
@@ -663,6 +765,8 @@ class Case:
         self.names = out_names(q)
         self.truth = [norm_truth(flow(q, i, path)) for i in range(len(self.names))]
         self.feats = features(q)
+        if style & 8:
+            self.feats.add("paren-root")
 
     def presentations(self):
         out = {}
@@ -672,7 +776,7 @@ class Case:
         return out
 
 
-KNOWN_FEATS = ("ref-collist",)
+KNOWN_FEATS = ("ref-collist", "paren-root")
 
 
 def oracle(case, only=None):
@@ -871,6 +975,20 @@ def correspond(chk: Check, cases):
                 real_all, entries = ("exc", f"{type(e).__name__}: {e}"), None
             reqs.append(json.dumps(req))
             meta.append((case, pres, sql, sources, req, real_all, entries))
+            if any(x["k"] == "wrap" for x in req["scopes"]):
+                chk.count("model:wrap-branch-cases")
+            if pres == "src" and sources and not (case.feats & {"collist", "ref-collist"}) and not isinstance(real_all, tuple):
+                # the same presentation WITHOUT the real exp.expand: the model expands (Model.expandQ)
+                try:
+                    ureq = to_model_unexpanded(sql, sources, case.schema, case.path, case.dialect)
+                except Exception as e:  # noqa
+                    ureq = None
+                    chk.count("model:unexpanded-qualify-raises")
+                if ureq is None:
+                    chk.count("model:unexpanded-unsupported")
+                else:
+                    reqs.append(json.dumps(ureq))
+                    meta.append((case, "src-unexpanded", sql, sources, ureq, real_all, entries))
     if not reqs:
         return []
     outs = chk.driver("C17", reqs)
@@ -881,6 +999,27 @@ def correspond(chk: Check, cases):
             raise HarnessError(f"C17 driver rejected a request: {line}: {json.dumps(req)[:300]}")
         o = json.loads(line)
         cols = req["cols"]
+        if pres == "src-unexpanded":
+            chk.count("model:expand-cases")
+            for a in ("inl", "all", "unc"):
+                if [canon_leaves(x) for x in o[a]] != [canon_leaves(x) for x in o["one"]]:
+                    chk.correspondence_broken(f"model expand: {a} differs from the cached per-column run", {"sql": sql, "sources": sources})
+            model = {c: canon_leaves(l) for c, l in zip(cols, o["one"])}
+            real = {c: sorted({tuple(x) for x in l}) for c, l in real_all.items()}
+            if real != model:
+                chk.correspondence_broken("sources=: real expand+qualify+to_node vs model expandQ+toNode on the un-expanded pieces",
+                                          {"sql": sql, "sources": sources, "dialect": case.dialect, "real": real, "model": model})
+                hints.append(case)
+            elif entries is not None:
+                # same cache contents up to the numbering of the scopes (the copies are laid out in another order)
+                def noidx(es):
+                    return canon_entries([dict(e, scope=0) for e in es])
+                if noidx(entries) != noidx(o["cache"]):
+                    r, m_ = noidx(entries), noidx(o["cache"])
+                    chk.correspondence_broken("sources=: cache contents (modulo scope numbering) real expand vs model expandQ",
+                                              {"sql": sql, "sources": sources, "only_real": [x for x in r if x not in m_][:4],
+                                               "only_model": [x for x in m_ if x not in r][:4]})
+            continue
         # the model's four renderings agree with each other (theorems, re-checked on data)
         for a in ("unc", "flow", "all"):
             if [canon_leaves(x) for x in o[a]] != [canon_leaves(x) for x in o["one"]]:
@@ -925,6 +1064,8 @@ def gen_case(rng, max_depth):
     path = rng.choice(["", "", "db.", "cat.db."])
     dialect = rng.choice(DIALECTS + [None, None])
     style = rng.choice([0, 0, 1, 2, 3, 6, 7, 7])
+    if rng.random() < 0.07:
+        style |= 8  # parenthesised root query: the Subquery-wrapper branch of to_node
     return Case(q, path, dialect, style)
 
 
@@ -1015,12 +1156,12 @@ def run(chk: Check) -> None:
                  sample={"sql": per["inline"][0], "dialect": case.dialect, "columns": case.names,
                          "flow": case.truth} if n % 17 == 1 else None)
         for v in viol:
-            sig = (v[0], v[2].get("pres"), tuple(sorted(case.feats & {"ref-collist", "collist"})))
+            sig = (v[0], v[2].get("pres"), tuple(sorted(case.feats & {"ref-collist", "collist", "paren-root"})))
             if sig in seen_keys or len(chk.violations) >= 10:
                 continue
             seen_keys.add(sig)
             certain = (v[2].get("pres") == "src" and case.feats & {"collist", "ref-collist"}) or (
-                v[2].get("pres") == "cte" and "ref-collist" in case.feats)
+                v[2].get("pres") == "cte" and "ref-collist" in case.feats) or "paren-root" in case.feats
             # a column-list alias under sources= / on a CTE reference fails for the known reason whatever else the
             # query contains: nothing to minimise
             report(chk, case, v, 0 if certain else min(deadline + 5, time.time() + chk.pick(6, 20)))
